@@ -587,6 +587,21 @@ func pubsubC07(c *Ctx) {
 				}
 				q.add("PATH", "the decrement is routed through the caster only when a send is in flight", good,
 					pickS(good, "ping.Add(delta) reached only through ok == false", "ping.Add(delta) can run although the read lock was obtained (no send in flight): it would corrupt the caster's count or block"), da)
+				// ... after the subscription was taken out of the count: absorbing can block until the Send in flight has
+				// delivered, and a Send that starts before the count is reduced would wait for a subscriber that has left
+				{
+					var decs []ssa.Instruction
+					decs = append(decs, P.CallsTo(q.fn, "(*ChanPubSub).addSubscribers")...)
+					for _, in := range an.AllInstrs(q.fn, func(in ssa.Instruction) bool {
+						cc := an.CallCommonOf(in)
+						return cc != nil && len(cc.Args) > 0 && strings.HasPrefix(P.CalleeName(cc), "(*sync/atomic.") && strings.HasSuffix(P.CalleeName(cc), ").Add") && an.FieldOfAddr(cc.Args[0]) == "ChanPubSub.subscribers"
+					}) {
+						decs = append(decs, in)
+					}
+					first := len(decs) > 0 && P.Before(q.fn, an.In(decs), da)
+					q.add("PATH", "a departing subscription leaves the count before its copies are absorbed", first,
+						pickS(first, "the subscriber count is reduced on every path to ping.Add(delta)", "ping.Add(delta) can run before the subscriber count was reduced: the next Send counts a subscriber that has gone and waits for it for ever"), da)
+				}
 				// ... once, with the delta of this call: the caster absorbs exactly one in-flight copy per departing
 				// subscription (applied once per unit of delta it would absorb |delta|^2 copies, the rest stolen from
 				// subscribers that stay)
